@@ -26,6 +26,12 @@ to coq/theories/Gen/RedesignGen.v and Proofs/RedesignGen.v proves each generated
                                  TRANSLATED: the defaults of the signature, the keys of to_json (each `self.<key>`)
     SimParams.set_params         template only (both entries rebuilt, a missing one from {})
   gnpy/core/network.py
+    compute_gain_power_and_tilt_target, set_one_amplifier, set_amplifier_voa
+                                 templates CG / SO / VOA and translator TrP of harness/pygen_c09.py (not duplicated here:
+                                 the redesign model Model/Redesign.v has its own amplifier stages, which get their own
+                                 obligations); TRANSLATED: both dp expressions, the power-mode gain, the gain-mode dp
+                                 derived back from an imposed gain, power_target, both saturation reductions, the
+                                 automatic output VOA; the mode test and the returned (dp, voa) are template-fixed
     estimate_raman_gain          template ERG: the cached value returned first, SimParams saved (both entries, to_json)
                                  BEFORE set_params(sim_params), restored with set_params(save_sim_params) on the only
                                  exit path after the set, the estimate recorded only when a span input power was given,
@@ -235,9 +241,14 @@ return 0.0
 
 HEADER = """(* GENERATED on every run by harness/pygen_c17.py from gnpy/core/elements.py, parameters.py and network.py of /repo -
    do not edit. *)
-From Coq Require Import QArith.
+From Coq Require Import QArith Qminmax.
 From Verif Require Import Prelude Model.Chain Model.Redesign.
 Open Scope Q_scope.
+
+(* names the translator of harness/pygen_c09.py uses, in terms of Model/Redesign.v *)
+Definition c_voa_step (c : scfg) : Q := s_vstep c.
+Definition c_voa_margin (c : scfg) : Q := s_margin c.
+Definition round2float (x step : Q) : Q := r2f x step.
 """
 
 
@@ -420,6 +431,41 @@ def generate(repo=None):
     match_template(SET_PARAMS, strip_doc(fn.body), 'SimParams.set_params')
     out.append('(* parameters.SimParams.set_params matches its template *)\n')
 
+    # ---- amplifier design arithmetic: templates and translator of the C09 tie, obligations against Model/Redesign.v
+    from .pygen_c09 import CG, SO, VOA, TrP
+    tp = TrP()
+
+    def same(node, src, what):
+        if ast.dump(node) != ast.dump(ast.parse(src, mode='eval').body):
+            raise Unsupported(f'{what} is no longer `{src}`')
+    fn = find(net, 'compute_gain_power_and_tilt_target')
+    if [a.arg for a in fn.args.args] != ['node', 'prev_node', 'next_node', 'power_mode', 'prev_voa', 'prev_dp',
+                                         'pref_total_db', 'network', 'equipment', 'deviation_db', 'tilt_target']:
+        raise Unsupported('signature of compute_gain_power_and_tilt_target')
+    b = match_template(CG, strip_doc(fn.body), 'compute_gain_power_and_tilt_target')
+    same(b['H_mode'], 'node.effective_gain is None or power_mode', 'the mode test of compute_gain_power_and_tilt_target')
+    same(b['H_gain_gm'], 'node.effective_gain', 'the imposed gain of compute_gain_power_and_tilt_target')
+    out.append('(* network.compute_gain_power_and_tilt_target (t = target_power(..), u = operational.delta_p; the gain-mode '
+               'branch is taken iff a gain is imposed and power_mode is off: template) *)')
+    out.append(f'Definition g_dp_rule (t voa : Q) : Q := {tp.e(b["H_dp_rule"])}.')
+    out.append(f'Definition g_dp_user (u : Q) : Q := {tp.e(b["H_dp_user"])}.')
+    out.append(f'Definition g_gain_pm (node_loss deviation_db dp prev_dp prev_voa in_voa : Q) : Q := {tp.e(b["H_gain_pm"])}.')
+    out.append(f'Definition g_dp_gm (prev_dp node_loss deviation_db prev_voa gain_target in_voa : Q) : Q := {tp.e(b["H_dp_gm"])}.')
+    out.append(f'Definition g_power_target (pref_total dp : Q) : Q := {tp.e(b["H_pt"])}.\n')
+    b = match_template(SO, strip_doc(find(net, 'set_one_amplifier').body), 'set_one_amplifier')
+    out.append('(* network.set_one_amplifier: power reduction of an amplifier with imposed type_variety; (dp, voa) returned '
+               '(template) *)')
+    out.append(f'Definition g_red_pm (p_max pref_total dp : Q) : Q := {tp.e(b["H_red_pm"])}.')
+    out.append(f'Definition g_red_gm (p_max pref_total prev_dp node_loss prev_voa gain_target : Q) : Q :=\n'
+               f'  let pout := {tp.e(b["H_pout"])} in {tp.e(b["H_red_gm"])}.\n')
+    fn = find(net, 'set_amplifier_voa')
+    if [a.arg for a in fn.args.args] != ['amp', 'power_target', 'power_mode', 'voa_margin', 'voa_step']:
+        raise Unsupported('signature of set_amplifier_voa')
+    b = match_template(VOA, strip_doc(fn.body), 'set_amplifier_voa')
+    out.append('(* network.set_amplifier_voa: the automatic output VOA *)')
+    out.append(f'Definition g_auto_voa (c : scfg) (pmax gmax pt gain : Q) : Q :=\n  let voa := {tp.e(b["H_raw"])} in\n'
+               f'  let voa := {tp.e(b["H_voa"])} in\n  voa.\n')
+
     # ---- estimate_raman_gain
     fn = find(net, 'estimate_raman_gain')
     b = match_template(ERG, strip_doc(fn.body), 'estimate_raman_gain')
@@ -462,7 +508,7 @@ def regenerate():
     dst = os.path.join(common.COQ, 'theories', 'Gen', 'RedesignGen.v')
     try:
         txt = generate()
-    except (Unsupported, SyntaxError, OSError, KeyError) as e:
+    except (Unsupported, SyntaxError, OSError, KeyError, ImportError) as e:
         return False, f'translation failed: {type(e).__name__}: {e}'
     os.makedirs(os.path.dirname(dst), exist_ok=True)
     if not os.path.exists(dst) or open(dst).read() != txt:
